@@ -174,6 +174,13 @@ func (r *Report) Finish(verifDir string, evidencePath string, known []knownEntry
 	}
 
 	outDir := filepath.Join(verifDir, "out", r.Property)
+	if alt := os.Getenv("YQCHECK_OUT"); alt != "" || os.Getenv("YQCHECK_NESTED") != "" {
+		// nested (variant / replay) runs must not disturb the replay files of the main run
+		if alt == "" {
+			alt = os.TempDir()
+		}
+		outDir = filepath.Join(alt, "yqcheck-out-"+r.Property)
+	}
 	os.RemoveAll(outDir)
 	exit := 0
 	fmt.Printf("== %s tier=%s: %d obligations over %d rules\n", r.Property, r.Tier, len(r.obligs), len(r.ruleOrder))
